@@ -185,7 +185,10 @@ func CopyTree(src, dst string) error {
 		}
 		rel, _ := filepath.Rel(src, p)
 		if rel == ".git" {
-			return filepath.SkipDir
+			if d.IsDir() {
+				return filepath.SkipDir
+			}
+			return nil // a worktree's .git is a file
 		}
 		target := filepath.Join(dst, rel)
 		info, err := d.Info()
